@@ -170,3 +170,43 @@ def run(ctx, vecs, classes, executed, targets=None, n_bytes=None, n_sub=None):
             log("[miri] %s skipped: %s" % (name, str(e)[:200]))
 
     C.parallel([(lambda n=n: one(n)) for n in targets])
+
+
+def conc_host(ctx, seeds, threads=4, rounds=1, timeout=400):
+    """C15 vehicle: the racing-first-calls scenario under host Miri with seed-controlled schedules and a non-zero
+    preemption rate (stale Relaxed reads happen deterministically per seed). Returns the list of trace files."""
+    d = os.path.join(C.WORK, "miri", "sysroot-host")
+    if not os.path.isdir(os.path.join(d, "lib")):
+        env = dict(os.environ, MIRI_SYSROOT=d, CARGO_NET_OFFLINE="true")
+        p = subprocess.run(["timeout", "300", "cargo", "+nightly", "miri", "setup"], cwd=C.HARNESS, env=env, stdout=subprocess.PIPE, stderr=subprocess.STDOUT, text=True)
+        if p.returncode != 0:
+            raise ToolError("miri setup (host) failed: " + p.stdout[-300:])
+    out = []
+    procs = []
+    od = os.path.join(ctx.dir, "miri_conc")
+    os.makedirs(od, exist_ok=True)
+    for sd in seeds:
+        tr = os.path.join(od, "conc_seed%d.ndjson" % sd)
+        env = dict(os.environ, MIRI_SYSROOT=d, CARGO_TARGET_DIR=os.path.join(C.WORK, "target-miri"), CARGO_NET_OFFLINE="true",
+                   RUSTFLAGS=RUSTFLAGS + " --cfg verif_x86",
+                   MIRIFLAGS="-Zmiri-disable-isolation -Zmiri-seed=%d -Zmiri-preemption-rate=%s" % (sd, ["0.2", "0.05", "0.5"][sd % 3]))
+        cmd = ["timeout", str(timeout), "cargo", "+nightly", "miri", "run", "--offline", "--quiet", "--", "conc-child", "--trace", tr,
+               "--threads", str(threads), "--seed", str(sd), "--rounds", str(rounds)]
+        if not procs:
+            # a tiny warm-up run builds the harness for the host Miri target, so that the parallel runs do not race on the target directory
+            warm = cmd[:-8] + ["conc-child", "--trace", tr + ".warm", "--threads", "1", "--seed", "0", "--rounds", "0"]
+            p = subprocess.run(warm, cwd=C.HARNESS, env=env, stdout=subprocess.PIPE, stderr=subprocess.PIPE, text=True)
+            if p.returncode != 0:
+                raise ToolError("miri (host) run failed rc=%s: %s" % (p.returncode, p.stderr[-300:]))
+            procs.append(None)
+        procs.append((subprocess.Popen(cmd, cwd=C.HARNESS, env=env, stdout=subprocess.PIPE, stderr=subprocess.PIPE, text=True), tr, sd))
+    for it in procs[1:]:
+        pr, tr, sd = it
+        o, e = pr.communicate()
+        if pr.returncode == 0 and os.path.exists(tr):
+            out.append(tr)
+        elif "Undefined Behavior" in e and "Data race" in e:
+            ctx.violation("miri-host:data-race:seed%d" % sd, "Miri detected a data race in the code under test (seed %d): %s" % (sd, [l for l in e.splitlines() if "Data race" in l][:1]), {"seed": sd})
+        else:
+            ctx.vehicles_skipped.append({"vehicle": "miri-host seed %d" % sd, "reason": "rc=%s %s" % (pr.returncode, e[-200:])})
+    return out
